@@ -1,5 +1,6 @@
 SPECIFICATION FairSpec
 CONSTANTS
+  KeepHist = FALSE
   Forms = {"fut", "await", "sticky", "on"}
   Ns = {1, 2}
   OutSets = {"v", "x", "vv", "vx"}
